@@ -165,21 +165,26 @@ def laws_unary(p, s, twin=None):
 def laws_binary(p, f, r):
     bad = []
     try:
+        m = {}
         for disp in (False, True):
-            m1 = p.paths_match(f, r, disp)
+            m1 = m[disp] = p.paths_match(f, r, disp)
             hit("match_sym"), hit("match_iff_norm")
             if m1 != p.paths_match(r, f, disp):
                 bad.append(("match_sym", dict(a=f, b=r, disp=disp)))
             if m1 != (p.normalize_path(f, disp) == p.normalize_path(r, disp)):
                 bad.append(("match_iff_norm", dict(a=f, b=r, disp=disp)))
-        if p.paths_match(f, r, True):
+        if m[True]:
             hit("match_display_plain")
-        if p.paths_match(f, r, True) and not p.paths_match(f, r, False):
-            bad.append(("match_display_plain", dict(a=f, b=r)))
-        if p.case_sensitive and p.paths_match(f, r) != (pc(p, f) == pc(p, r)):
+            if not m[False]:
+                bad.append(("match_display_plain", dict(a=f, b=r)))
+        if p.case_sensitive:
+            hit("match_case_sensitive")
+        elif per_char_lower(f) and per_char_lower(r):
+            hit("match_iff_components")
+        if p.case_sensitive and m[False] != (pc(p, f) == pc(p, r)):
             bad.append(("match_case_sensitive", dict(a=f, b=r)))
         if not p.case_sensitive and per_char_lower(f) and per_char_lower(r) and \
-                p.paths_match(f, r) != (lowk(p, pc(p, f)) == lowk(p, pc(p, r))):
+                m[False] != (lowk(p, pc(p, f)) == lowk(p, pc(p, r))):
             bad.append(("match_iff_components", dict(a=f, b=r)))
         # join_inside / join_inside_exact: a folder joined with a relative part is inside the folder,
         # with that relative part.  Hypotheses: abs_path f, strip(nps r) non-blank, not the drive-letter form.
@@ -289,9 +294,8 @@ def laws_translate(provs, roots, path):
                 hit("translate_lands_inside")
                 if not provs[to].is_subpath(roots[to], there):
                     bad.append(("translate_lands_inside", dict(path=path, to=to, there=there)))
-            # hypotheses of translate_roundtrip: same separators, absolute roots, no win_paths
-            if (abs_path(provs[0], roots[0]) and abs_path(provs[1], roots[1])
-                    and not provs[0].win_paths and not provs[1].win_paths
+            # hypotheses of translate_roundtrip: same separators, absolute roots, not the drive-letter form
+            if (abs_path(provs[0], roots[0]) and abs_path(provs[1], roots[1]) and not dl(provs[to], there)
                     and provs[0].sep == provs[1].sep and provs[0].alt_sep == provs[1].alt_sep):
                 back = CloudSync.translate(fake, frm, there)
                 hit("translate_roundtrip")
@@ -466,24 +470,25 @@ def run(ctx):
         # ---- translate: pairs of conventions and roots
         rng = ctx.sub_rng("translate")
         roots_pool = [("/local", "/remote"), ("/", "/r"), ("/a", "/"), ("/A/b", "/x y"), ("/a/", "\\r\\"), ("/a", "/a")]
-        for (cs0, cs1) in [(True, True), (True, False), (False, True), (False, False)]:
-            provs = (make_prov(cs0, False), make_prov(cs1, False))
-            cvs = (conv_sx(cs0, False), conv_sx(cs1, False))
+        for (cs0, cs1, win0, win1) in [(True, True, False, False), (True, False, False, False), (False, True, False, False),
+                                       (False, False, False, False), (False, False, True, True), (True, False, False, True)]:
+            provs = (make_prov(cs0, win0), make_prov(cs1, win1))
+            cvs = (conv_sx(cs0, win0), conv_sx(cs1, win1))
             reqs, res = [], []
             for roots in roots_pool:
                 cands = list(strings_upto(3 if quick else 4, ["/", "a", "A", "b", "\\"]))
                 for _ in range(300 if quick else 3000):
                     side_root = roots[rng.randint(0, 1)]
-                    cands.append(side_root + rng.choice(["", "/", "x", "/x", "/x/Y", "2/x", "/\u00e9", "//z/"]))
+                    cands.append(side_root + rng.choice(["", "/", "x", "/x", "/x/Y", "2/x", "/\u00e9", "//z/", "/c:x", "/C:\\y/z"]))
                     cands.append(random_path(rng, provs[0]))
                 for path in cands:
                     for side in (0, 1):
                         reqs.append([7, cvs[0], cvs[1], S(roots[0]), S(roots[1]), side, S(path)])
                         res.append(translate_impl(provs, roots, side, path))
                     stats["translate"] += 1
-                    dist.add(("tr", cs0, cs1, roots, path), nontrivial=bool(path))
+                    dist.add(("tr", cs0, cs1, win0, win1, roots, path), nontrivial=bool(path))
                     for law, d in laws_translate(provs, roots, path):
-                        d = dict(d, roots=roots, cs=[cs0, cs1])
+                        d = dict(d, roots=roots, cs=[cs0, cs1], win=[win0, win1])
                         ctx.violation("law %s fails on the real code: %r" % (law, d),
                                       dict(kind="law", law=law, detail=d))
                     stats["laws_checked"] += 1
@@ -504,7 +509,7 @@ def run(ctx):
     cov["distinct_nontrivial"] = dist.nontrivial
     cov["rule"] = ("exhaustive strings over the 10-letter alphabet {/ \\ a A b . space : e-acute E-acute}: unary helpers up to "
                    "length %s, pairs up to %s, triples up to %s (+ structured triples), random long paths, translate over 6 root "
-                   "pairs x 4 case combinations; 5 conventions (case x win_paths, and one without alt_sep); a case is "
+                   "pairs x 6 case/win_paths combinations; 5 conventions (case x win_paths, and one without alt_sep); a case is "
                    "non-trivial when its strings are non-empty; distinct = distinct (convention, strings) tuples"
                    % ((4, 2, 1) if ctx.quick else (5, 3, 2)))
     cov["exhaustive"] = False
